@@ -6,7 +6,7 @@
 EXTENDS EventSigning, Json, TLC
 
 SA == "a.example"   \* sender's server
-SB == "b.example"   \* event-ID's server (room versions 1-2)
+SB == "b.example:8448"   \* event-ID's server (room versions 1-2); it carries a port: the server is everything after the FIRST colon
 SC == "c.example"   \* authorising user's server
 Servers == {SA, SB, SC}
 
